@@ -189,7 +189,7 @@ Section Frag.
         forallb (fun c => match c with FClause _ _ names ctx body =>
                              list_eqb String.eqb names (fvars ctx) && ctx_data ctx && frag body end) cls
     | FDtor scrut _ _ args _ =>
-        frag scrut && forallb darg_ok args && scrut_atomic scrut
+        frag scrut && forallb darg_ok args && (scrut_atomic scrut || forallb atomic args)
     end.
   Definition arg_ok (y : fterm) : bool :=
     match y with
